@@ -1,9 +1,9 @@
 package simnet
 
 import (
+	"fmt"
 	"os"
 	"testing"
-	"fmt"
 )
 
 // TestDebugTx replays a file and prints the full log of every failing tx (debug aid).
